@@ -1881,3 +1881,51 @@ pub mod recfx {
         }
     }
 }
+
+// ---------------------------------------------------------------- R-CAPSRC
+pub mod capfx {
+    fn decompress_bounded(data: &[u8], cap: usize) -> Result<Vec<u8>, String> {
+        let mut out = Vec::new();
+        for &b in data {
+            for _ in 0..(b as usize) {
+                if out.len() == cap { return Err("too large".into()); }
+                out.push(0);
+            }
+        }
+        Ok(out)
+    }
+    pub fn ok_const(data: &[u8]) -> Result<Vec<u8>, String> {
+        decompress_bounded(data, 1 << 20)
+    }
+    pub fn ok_stored(frame: &[u8]) -> Result<Vec<u8>, String> {
+        let n = u32::from_le_bytes([frame[0], frame[1], frame[2], frame[3]]) as usize;
+        decompress_bounded(&frame[4..], n.min(1 << 20))
+    }
+    pub fn bad_ratio(data: &[u8]) -> Result<Vec<u8>, String> {
+        let cap = data.len().saturating_mul(64).clamp(1024, 1 << 20);
+        decompress_bounded(data, cap)
+    }
+}
+
+// ---------------------------------------------------------------- R-PAIRACCESS
+pub mod pairfx {
+    pub struct V { pub base: Vec<u64>, pub delta: Vec<u32>, pub n: usize }
+    impl V {
+        fn sample(&self, b: usize) -> Result<u64, String> { self.base.get(b).copied().ok_or_else(|| "b".to_string()) }
+        fn delta_at(&self, b: usize, o: usize) -> Result<u32, String> { self.delta.get(b * 4 + o).copied().ok_or_else(|| "d".to_string()) }
+        fn one(&self, i: usize) -> Result<u64, String> { Ok(self.sample(i >> 2)? + self.delta_at(i >> 2, i & 3)? as u64) }
+        pub fn ok_get2(&self, index: usize) -> Result<(u64, u64), String> {
+            if index + 1 >= self.n { return Err("oob".into()); }
+            let a = self.one(index)?;
+            let b = self.one(index + 1)?;
+            Ok((a, b))
+        }
+        pub fn bad_get2(&self, index: usize) -> Result<(u64, u64), String> {
+            if index + 1 >= self.n { return Err("oob".into()); }
+            let blk = index >> 2;
+            let off = index & 3;
+            let m = self.sample(blk)?;
+            Ok((m + self.delta_at(blk, off)? as u64, m + self.delta_at(blk, off + 1)? as u64))
+        }
+    }
+}
